@@ -14,7 +14,7 @@ from simtz import replsim as rs
 from simtz.runner import rng_for
 
 ID = 'C22'
-QUICK_RUNS = 2400
+QUICK_RUNS = 1800
 QUICK_BUDGET_S = 90
 CHUNK = 25
 CHUNK_TIMEOUT_S = 600
@@ -246,7 +246,9 @@ def gen(seed, tier):
     tails = [t for t in sorted(FAIL_TAILS) if rng.random() < 0.5] or ['failwith']
     steps = []
     for ci, cell in enumerate(cells):
-        if ci > 0 and rng.random() < p_fail:
+        nfail = 0
+        while ci > 0 and nfail < 3 and rng.random() < (p_fail if nfail == 0 else 0.35):
+            nfail += 1
             mode = rng.choice(modes)
             if mode == 'prefix':
                 src = cell if rng.random() < 0.7 else list(rng.choice(NEUTRAL))
